@@ -238,3 +238,45 @@ func firstLine(s string) string {
 	}
 	return s
 }
+
+// shareRule runs another property's rule set in a scratch report and files
+// the obligations of ONE of its rules under this property with its own rule
+// id and text: the obligation is written once and claimed by every property
+// whose statement depends on it.
+func (e *Engine) shareRule(r *Report, fromProp, fromRule, asRule, text string) {
+	r.Rule(asRule, text+" - shared with "+fromRule)
+	run, ok := registry[fromProp]
+	if !ok {
+		r.Unresolved(asRule, "rule set of "+fromProp)
+		return
+	}
+	if e.sharing == nil {
+		e.sharing = map[string]bool{}
+	}
+	if e.sharing[fromProp] {
+		return // already being computed further up (mutual sharing): the outer run files it
+	}
+	sub := e.sharedRuns[fromProp]
+	if sub == nil {
+		sub = NewReport(fromProp, r.Tier)
+		e.sharing[fromProp] = true
+		run(e, sub)
+		e.sharing[fromProp] = false
+		if e.sharedRuns == nil {
+			e.sharedRuns = map[string]*Report{}
+		}
+		e.sharedRuns[fromProp] = sub
+	}
+	n := 0
+	for _, o := range sub.Obs {
+		if o.Rule != fromRule {
+			continue
+		}
+		n++
+		c := *o
+		c.Prop = r.Prop
+		c.Rule = asRule
+		r.Obs = append(r.Obs, &c)
+	}
+	r.Min(asRule, "obligations taken over from "+fromRule, n, 1)
+}
